@@ -4,6 +4,7 @@ import (
 	"encoding/json"
 	"flag"
 	"fmt"
+	"go/token"
 	"go/types"
 	"math/rand"
 	"os"
@@ -28,6 +29,7 @@ type world struct {
 	loadS float64
 	// set when the grammar actions could not be extracted (see load)
 	actionsNote string
+	called      map[*ssa.Function]bool
 }
 
 var globalActionsNote string
@@ -83,6 +85,7 @@ func load() (*world, error) {
 	w := &world{prog: prog, pkgs: pkgs, actionsNote: actionsNote}
 	globalActionsNote = actionsNote
 	w.db = loadContracts(prog, pkgs)
+	globalUmbrella = w.db.umbrella
 	w.db.indexPkgs(pkgs)
 	w.sent = collectSentinels(prog, modulePath)
 	w.loadS = time.Since(start).Seconds()
@@ -295,6 +298,20 @@ func runCheck(o checkOpts) int {
 			frameOnly = true
 		}
 		res := verifyFunction(w.prog, w.db, c.Fn, c, modulePath, w.sent)
+		// an umbrella property includes the obligations of its members
+		for _, ob := range res.Obligations {
+			for u, members := range w.db.umbrella {
+				if contains(ob.Props, u) {
+					continue
+				}
+				for _, mprop := range members {
+					if contains(ob.Props, mprop) {
+						ob.Props = append(append([]string{}, ob.Props...), u)
+						break
+					}
+				}
+			}
+		}
 		results = append(results, res)
 		engineErrors = append(engineErrors, res.Errors...)
 		has := false
@@ -503,7 +520,22 @@ func runCheck(o checkOpts) int {
 	}
 	exit := 0
 	replayDir := filepath.Join(verifDir(), "evidence", "replay", prop)
+	// functions whose contract lost a clause because the code no longer has a
+	// name it mentions: a failure there may be an artefact of the missing
+	// clause, so it is reported as undecided, not as a violation
+	staleFn := map[string]bool{}
+	for _, r := range results {
+		if len(r.Stale) > 0 {
+			staleFn[r.Name] = true
+		}
+	}
+	undecidedStale := 0
 	for _, ob := range failed {
+		if staleFn[ob.Func] {
+			undecidedStale++
+			fmt.Printf("UNDECIDED-OBLIGATION %s verdict=%s: the contract of %s has stale clauses (see STALE-CLAUSE); bring the contract up to date with the code\n", ob.Name, ob.Verdict, ob.Func)
+			continue
+		}
 		exit = 1
 		if os.Getenv("GOVC_NOEVIDENCE") != "" {
 			replayDir = filepath.Join(os.TempDir(), "govc-replay", prop)
@@ -529,6 +561,15 @@ func runCheck(o checkOpts) int {
 		for _, r := range reports {
 			fmt.Printf("  %-8s %-8s %6.2fs %s\n", r.Verdict, r.Solver, r.TimeS, r.Name)
 		}
+	}
+	if undecidedStale > 0 && exit == 0 {
+		exit = 2
+		fmt.Printf("UNDECIDED property=%s reason=%d obligation(s) could not be decided because contract clauses are stale\n", prop, undecidedStale)
+	}
+	globalStale = append([]string{}, w.db.stale...)
+	sort.Strings(globalStale)
+	for _, st := range globalStale {
+		fmt.Println("STALE-CLAUSE", st)
 	}
 	// bounded stand-ins registered for this property (never counted as proof)
 	if o.funcs == "" && prop != "all" {
@@ -556,11 +597,18 @@ func runCheck(o checkOpts) int {
 	return exit
 }
 
+var globalUmbrella = map[string][]string{}
+
 var framePropSet = map[string]bool{"C05": true, "C09": true, "C19": true}
 
 func contractMentions(c *Contract, prop string) bool {
 	if contains(c.Props, prop) || contains(c.SafetyProps, prop) {
 		return true
+	}
+	for _, mprop := range globalUmbrella[prop] {
+		if contractMentions(c, mprop) {
+			return true
+		}
 	}
 	for _, cls := range [][]*Clause{c.Requires, c.Ensures, c.Invariants, c.AtCalls} {
 		for _, cl := range cls {
@@ -668,6 +716,13 @@ func writeEvidence(prop string, o checkOpts, results []*funcResult, selected []*
 		cov["explanation"] = fmt.Sprintf("proof obligations generated from the current source: %d, discharged: %d; %d obligation(s) fail and are listed as known findings, %d unlisted failure(s). Because discharged != obligations this run is not a proof-level claim for the whole property; every other obligation was discharged by the SMT back ends.",
 			proofObls, proofDischarged, len(knownHit), nfailed)
 	}
+	if len(globalStale) > 0 {
+		// clauses that could not be checked because the code no longer has what
+		// they name: the remaining obligations stand, but this is not a proof run
+		level = "other"
+		cov["stale_clauses"] = globalStale
+		cov["explanation"] = fmt.Sprintf("%v %d contract clause(s) were left out because they name something the current code does not have (renamed local, removed loop, renamed function); the remaining %d obligations were checked.", cov["explanation"], len(globalStale), proofObls)
+	}
 	var assumptions []string
 	for a := range assump {
 		assumptions = append(assumptions, a)
@@ -774,6 +829,15 @@ func (w *world) allTargets() []*Contract {
 			if skip {
 				continue
 			}
+			// an unexported, loop-free helper without a contract that the module
+			// itself calls is inlined at every call site and checked there, with
+			// the arguments it is actually given; checking it once more on its own,
+			// for arguments no caller passes, would only produce "needs contract"
+			// alarms on helpers extracted during clean-ups
+			if !token.IsExported(f.Name()) && !hasLoops(f) && w.calledInModule()[f] {
+				seen[f] = true
+				continue
+			}
 			seen[f] = true
 			extra = append(extra, &Contract{Key: funcName(f), Pkg: pkg, Fn: f, Props: nil, SafetyProps: sw.Props, File: "sweep", Swept: true})
 		}
@@ -826,6 +890,7 @@ func (db *ContractDB) isFrameProp(p string) bool {
 }
 
 var globalBounded []boundedResult
+var globalStale []string
 
 func boundedFilesAll() []string {
 	m, _ := filepath.Glob(filepath.Join(verifDir(), "bounded", "C*_*.go.tmpl"))
@@ -842,4 +907,50 @@ func boundedEvidence() []map[string]any {
 			"failures": len(r.Failures), "known_findings": r.Known, "ran": r.Ran, "template": strings.TrimPrefix(r.File, verifDir()+"/")})
 	}
 	return out
+}
+
+// calledInModule: the module functions that some module function calls directly.
+func (w *world) calledInModule() map[*ssa.Function]bool {
+	if w.called != nil {
+		return w.called
+	}
+	w.called = map[*ssa.Function]bool{}
+	for _, pkg := range sortedPkgs(w.prog) {
+		if pkg.Pkg == nil || !isModulePkg(pkg.Pkg.Path(), modulePath) {
+			continue
+		}
+		var fns []*ssa.Function
+		for _, m := range sortedMembers(pkg) {
+			switch m := m.(type) {
+			case *ssa.Function:
+				fns = append(fns, m)
+				fns = append(fns, m.AnonFuncs...)
+			case *ssa.Type:
+				for _, t := range []types.Type{m.Type(), types.NewPointer(m.Type())} {
+					ms := w.prog.MethodSets.MethodSet(t)
+					for i := 0; i < ms.Len(); i++ {
+						if f := w.prog.MethodValue(ms.At(i)); f != nil {
+							fns = append(fns, f)
+							fns = append(fns, f.AnonFuncs...)
+						}
+					}
+				}
+			}
+		}
+		for _, f := range fns {
+			if strings.HasSuffix(w.prog.Fset.Position(f.Pos()).Filename, "_test.go") {
+				continue
+			}
+			for _, b := range f.Blocks {
+				for _, in := range b.Instrs {
+					if c, ok := in.(ssa.CallInstruction); ok {
+						if callee := c.Common().StaticCallee(); callee != nil && callee != f {
+							w.called[callee] = true
+						}
+					}
+				}
+			}
+		}
+	}
+	return w.called
 }
